@@ -19,6 +19,8 @@ import os
 import random
 import re
 import shutil
+import contextlib
+import signal
 import subprocess
 import sys
 import tempfile
@@ -359,6 +361,35 @@ class InfraError(Exception):
 # --------------------------------------------------------------------------- context
 
 
+class ImplementationHang(Exception):
+    pass
+
+
+_HANGS = {"n": 0}
+
+
+@contextlib.contextmanager
+def time_limit(seconds: float = 20.0):
+    """Bound one call into the implementation: a call that does not come back within `seconds`
+    raises ImplementationHang, to be reported by the caller as a failure of the property on that
+    input (every property here is about calls that return).  After five such calls in one process,
+    further calls are refused at once."""
+    if _HANGS["n"] >= 5:
+        raise ImplementationHang("not called again after five calls that did not return")
+
+    def on_alarm(signum, frame):
+        _HANGS["n"] += 1
+        raise ImplementationHang(f"no result after {seconds:g} s")
+
+    old = signal.signal(signal.SIGALRM, on_alarm)
+    signal.setitimer(signal.ITIMER_REAL, seconds)
+    try:
+        yield
+    finally:
+        signal.setitimer(signal.ITIMER_REAL, 0)
+        signal.signal(signal.SIGALRM, old)
+
+
 class Ctx:
     def __init__(self, prop: str, tier: str, seed: int, scale: int = 1):
         self.prop = prop
@@ -402,6 +433,19 @@ class Ctx:
     def fail(self, case: Any, what: str, kind: str = "", detail: Any = None):
         """The *property* fails on the implementation for this concrete input."""
         self.failures.append({"case": case, "what": what, "kind": kind or what, "detail": detail})
+
+    @contextlib.contextmanager
+    def time_limit(self, seconds: float = 20.0):
+        """Bound one call into the implementation (see `time_limit`); after three calls that did not
+        return, further calls are refused at once so that a check on a looping implementation ends."""
+        if getattr(self, "hangs", 0) >= 3:
+            raise ImplementationHang("not called again after three calls that did not return")
+        try:
+            with time_limit(seconds):
+                yield
+        except ImplementationHang:
+            self.hangs = getattr(self, "hangs", 0) + 1
+            raise
 
     def absorb(self, other: "Ctx"):
         """merge the bookkeeping of a further pass over the same property"""
